@@ -196,6 +196,23 @@ func init() {
 		return nil
 	}
 
+	sortSlice := func(in *Interp, fr *frame, args []Value) Value {
+		s := args[0].(Iface).V.(Slice)
+		less := args[1]
+		// stable insertion sort through the interpreted less function
+		for i := 1; i < len(s.A); i++ {
+			for j := i; j > 0; j-- {
+				if !in.branch(in.call(less, []Value{uint64(j), uint64(j - 1)}, fr, nil), "sort.less") {
+					break
+				}
+				s.A[j], s.A[j-1] = s.A[j-1], s.A[j]
+			}
+		}
+		return nil
+	}
+	intrinsics["sort.Slice"] = sortSlice
+	intrinsics["sort.SliceStable"] = sortSlice
+
 	// ---- math bit casts
 	intrinsics["math.Float32frombits"] = func(in *Interp, fr *frame, args []Value) Value {
 		switch b := args[0].(type) {
